@@ -1020,6 +1020,31 @@ pub fn run_c35(ctx: &Ctx) -> i32 {
         nodes[0].push_str(&hexs(rem));
         judge("total-len-cap", &mk("1", "00", &nodes, &[0], ""), Some(total <= MAX_STORAGE_PROOF_HEX_BYTES), json!({"total": total, "parts": parts}));
     }
+    // total length with ESCAPED nodes (serde hands strings with escapes to a different visitor method than plain ones):
+    // every node within the per-node cap, the decoded total at cap-1 / cap / cap+1 / 2*cap, escapes in all / the first / the last node
+    for (total, parts) in [(MAX_STORAGE_PROOF_HEX_BYTES - 1, 2usize), (MAX_STORAGE_PROOF_HEX_BYTES, 2), (MAX_STORAGE_PROOF_HEX_BYTES + 1, 2), (MAX_STORAGE_PROOF_HEX_BYTES + 2, 3), (2 * MAX_STORAGE_PROOF_HEX_BYTES, 4)] {
+        for which in ["all", "first", "last"] {
+            let mut nodes: Vec<String> = vec![];
+            let mut left = total;
+            for k in 0..parts {
+                let decoded = if k + 1 == parts { left } else { total / parts };
+                left -= decoded;
+                let esc = match which { "all" => true, "first" => k == 0, _ => k + 1 == parts };
+                // one escaped character (decodes to 'a') followed by plain ones
+                nodes.push(if esc && decoded >= 1 { format!("\\u0061{}", hexs(decoded - 1)) } else { hexs(decoded) });
+            }
+            let doc = mk("1", "00", &nodes, &[0], "");
+            if doc.len() <= MAX_TRANSFER_PROOF_JSON_BYTES {
+                judge("total-len-cap-escaped", &doc, Some(total <= MAX_STORAGE_PROOF_HEX_BYTES), json!({"decoded_total": total, "parts": parts, "escaped": which}));
+            }
+        }
+    }
+    // per-node cap with an escaped node
+    for d in [-1i64, 0, 1] {
+        let n = (MAX_STORAGE_PROOF_NODE_HEX_LEN as i64 + d) as usize;
+        let node = format!("\\u0061{}", hexs(n - 1));
+        judge("node-len-cap-escaped", &mk("1", "00", &[node], &[0], ""), Some(n <= MAX_STORAGE_PROOF_NODE_HEX_LEN.min(MAX_STORAGE_PROOF_HEX_BYTES)), json!({"decoded_node_len": n}));
+    }
     // index count
     for d in [-1i64, 0, 1] {
         let n = (MAX_MERKLE_INDICES as i64 + d) as usize;
